@@ -6,10 +6,13 @@ import (
 	"fmt"
 	mrand "math/rand"
 	"sync"
+	"sync/atomic"
 	"testing"
 	"time"
 
+	"github.com/elementsproject/peerswap/lnd"
 	"github.com/elementsproject/peerswap/lwk"
+	"github.com/elementsproject/peerswap/onchain"
 	"github.com/elementsproject/peerswap/swap"
 	"github.com/elementsproject/peerswap/txwatcher"
 
@@ -52,9 +55,10 @@ func runC20(r *Run, c c20Case) {
 	defer w.Close()
 	chain := w.LBTC
 	confs := uint32(2)
-	if c.backend == "bitcoind" {
+	if c.backend == "bitcoind" || c.backend == "lnd" {
 		chain, confs = w.BTC, 3
 	}
+	isLnd := c.backend == "lnd"
 	chain.KeepHistory = true
 	chain.HeightOffset = c.offset
 	chain.Mine(1)
@@ -63,10 +67,18 @@ func runC20(r *Run, c c20Case) {
 	var watch c20Watch
 	var rpc *sim.RpcFacade
 	var el *sim.ElectrumFacade
+	var lf *sim.LndChainFake
+	var regVer atomic.Int64
 	recent := func() (int64, int64) {
-		if rpc != nil {
-			lo, _ := rpc.RecentVersion(14)
+		if lf != nil {
+			lo, _ := lf.RecentVersion(6)
 			return lo, chain.VersionNow()
+		}
+		if rpc != nil {
+			// The rpc watcher hands every new height to its observation loops through one goroutine per height:
+			// a loop may work on any height it was told since the registration, in any order, however old. The
+			// versions it can have looked at therefore start at the registration (set below).
+			return regVer.Load(), chain.VersionNow()
 		}
 		lo, _ := el.RecentVersion(6)
 		return lo, chain.VersionNow()
@@ -99,7 +111,7 @@ func runC20(r *Run, c c20Case) {
 		case "confirm-late-between-calls":
 			// the tx sits in the mempool; right before a height lookup one empty block and then the block
 			// confirming the tx arrive
-			if lateTx != "" && (call == "getblockcount" || call == "get_history") && budget > 0 && rng.Intn(2) == 0 {
+			if lateTx != "" && (call == "getblockcount" || call == "get_history" || call == "getinfo" || call == "registerconf") && budget > 0 && rng.Intn(2) == 0 {
 				budget = 0
 				chain.Mine(1)
 				chain.Confirmable(lateTx)
@@ -116,6 +128,10 @@ func runC20(r *Run, c c20Case) {
 			return
 		}
 		watch = ew
+	} else if isLnd {
+		// the real lnd tx watcher over a fake of lnd's chain notifier and GetInfo
+		lf = &sim.LndChainFake{C: chain, Hook: hook}
+		watch = lnd.VerifNewTxWatcher(ctx, lf, lf, sim.BtcParams, confs, onchain.BitcoinCsv)
 	} else {
 		rpc = &sim.RpcFacade{C: chain, Hook: hook}
 		watch = txwatcher.NewBlockchainRpcTxWatcher(ctx, rpc, confs)
@@ -168,6 +184,9 @@ func runC20(r *Run, c c20Case) {
 	start := chain.Height() + c.offset
 	window := uint32(pick(rng, 6, 10, 60))
 	csv := uint32(pick(rng, 4, 6, 9))
+	if isLnd {
+		csv = onchain.BitcoinCsv // the lnd watcher takes its csv target at construction
+	}
 	var tx *sim.ChainTx
 	bcast := func() {
 		if tx == nil {
@@ -198,6 +217,7 @@ func runC20(r *Run, c c20Case) {
 	if tx != nil {
 		txid = tx.ID
 	}
+	regVer.Store(chain.VersionNow())
 	watch.AddWaitForConfirmationTx(swapID, txid, 0, start, window, script)
 	watch.AddWaitForCsvTx(csvID, txid, 0, start, csv, script)
 	pause()
@@ -250,6 +270,14 @@ func runC20(r *Run, c c20Case) {
 		}
 		pause()
 	}
+	if isLnd && c.pattern != "never-broadcast" {
+		// the only csv target of the lnd watcher is the Bitcoin one: go on until the output is that deep, in uneven
+		// chunks around the 144-confirmation hand-over and around maturity
+		for _, n := range []int{100, 40, 3, 1, 1, 500, 350, 8, 1, 1, 1, 1, 2, 5} {
+			chain.Mine(n)
+			pause()
+		}
+	}
 	hookMu.Lock()
 	mode = "quiet"
 	hookMu.Unlock()
@@ -266,6 +294,24 @@ func runC20(r *Run, c c20Case) {
 		})
 		cancel()
 		return
+	}
+	// the bounded clause below ("a report exists once the window has been closed for 3 blocks") must not be decided
+	// by how fast this machine is: if the report is still missing, give the watcher up to 8 more seconds of passes
+	if uint64(chain.Height())+uint64(c.offset) >= uint64(start)+uint64(window)+3 && c.reject == 0 && !isLnd {
+		for t0 := time.Now(); time.Since(t0) < 8*time.Second; {
+			mu.Lock()
+			got := false
+			for _, rp := range reports {
+				if rp.swap == swapID && rp.ret == nil && (rp.kind == "confirmed" || rp.kind == "failed") {
+					got = true
+				}
+			}
+			mu.Unlock()
+			if got {
+				break
+			}
+			pause()
+		}
 	}
 	cancel()
 	// ---- oracle ---------------------------------------------------------------------
@@ -297,7 +343,8 @@ func runC20(r *Run, c c20Case) {
 			for _, s := range last {
 				h := s.Heights[txid]
 				tip := uint64(s.Tip) + uint64(c.offset)
-				if h != 0 && s.Tip-h+1 >= confs && tip < uint64(start)+uint64(window) {
+				// (the lnd watcher has no payment-window parameter: its window is "fewer than csv/2 confirmations")
+				if h != 0 && s.Tip-h+1 >= confs && (tip < uint64(start)+uint64(window) || (isLnd && s.Tip-h+1 < onchain.BitcoinCsvSafetyLimit)) {
 					ok = true
 				}
 			}
@@ -329,7 +376,7 @@ func runC20(r *Run, c c20Case) {
 	// bounded clause: the window closed long ago (>= 3 passes) and nothing was reported for the confirmation registration
 	closed := finalTip >= uint64(start)+uint64(window)+3
 	gotConf := accepted["confirmed"+swapID] + accepted["failed"+swapID]
-	if closed && gotConf == 0 && c.reject == 0 && c.pattern != "transient-errors" {
+	if closed && gotConf == 0 && c.reject == 0 && c.pattern != "transient-errors" && !isLnd {
 		r.Violate("failure-after-window", "C20|no-report-although-window-closed|"+tag, fmt.Sprintf("tip %d, deadline %d, no accepted confirmation or failure report; case %+v", finalTip, uint64(start)+uint64(window), c), nil)
 	}
 	kinds := ""
@@ -366,8 +413,8 @@ func TestC20(t *testing.T) {
 	txwatcher.VerifSetPolling(time.Millisecond, time.Millisecond)
 	r := newRun(t, "C20", "exploration")
 	defer r.Finish()
-	r.Rule = "the real BlockchainRpcTxWatcher (bitcoind: 3 confirmations, elementsd: 2) and the real LWK Electrum watcher run over facades of the chain simulator that stamp every RPC answer with the chain version; generated block histories: plain, bursts, blocks or reorganisations between the individual RPC calls of one observation pass, reorganisations that unconfirm / re-confirm the tx, stale bestblock answers, transient RPC errors, tx confirmed before the window start, registration after the fact, confirmation right at the window edge, never-broadcast tx, out-of-order header notifications, several headers announced back to back while the consumer of a report is slow, heights just below 2^32, and a consumer that rejects the first reports. Oracle per report: some chain version among those the watcher's recent answers came from satisfies the reported fact; at most one accepted report per registration; a failure (or confirmation) exists once the window is closed for 3 blocks. distinct = (backend, pattern, kinds of reports, offset, rejections)"
-	r.Assumptions = []string{"the watcher can only have looked at chain versions spanned by its last 14 (rpc) / 6 (electrum) answers before the report", "wall-clock sleeps only give the polling watcher time to run; verdicts depend on version stamps, not on time"}
+	r.Rule = "the real BlockchainRpcTxWatcher (bitcoind: 3 confirmations, elementsd: 2) and the real LWK Electrum watcher run over facades of the chain simulator that stamp every RPC answer with the chain version; generated block histories: plain, bursts, blocks or reorganisations between the individual RPC calls of one observation pass, reorganisations that unconfirm / re-confirm the tx, stale bestblock answers, transient RPC errors, tx confirmed before the window start, registration after the fact, confirmation right at the window edge, never-broadcast tx, out-of-order header notifications, several headers announced back to back while the consumer of a report is slow, heights just below 2^32, and a consumer that rejects the first reports. The real lnd tx watcher runs over a fake of lnd's chain notifier (conf events at 3 confirmations, block epochs, GetInfo) with histories that go on past 144 and 1008 confirmations. Oracle per report: some chain version among those the watcher can have looked at satisfies the reported fact; at most one accepted report per registration; a failure (or confirmation) exists once the window is closed for 3 blocks. distinct = (backend, pattern, kinds of reports, offset, rejections)"
+	r.Assumptions = []string{"the rpc watcher can have looked at any chain version since the registration (it hands heights to its observation loops through one goroutine per height, in no particular order); the Electrum watcher at the versions of its last 6 answers and of the header it is processing; the lnd watcher at the versions of its last 6 answers / events", "wall-clock sleeps only give the polling watcher time to run; verdicts depend on version stamps, not on time"}
 	patterns := []string{"plain", "burst", "blocks-between-calls", "reorg", "reorg-between-calls", "stale-bestblock", "transient-errors", "confirmed-before-start", "registered-after-the-fact", "window-edge", "never-broadcast", "out-of-order-notifications", "confirm-late-between-calls", "header-burst-slow-consumer"}
 	var cases []c20Case
 	reps := r.N(16, 240)
@@ -394,6 +441,13 @@ func TestC20(t *testing.T) {
 				cases = append(cases, c)
 				i++
 			}
+		}
+	}
+	// the real lnd tx watcher over a fake chain notifier (Bitcoin only; no payment-window parameter, csv fixed at 1008)
+	for _, p := range []string{"plain", "burst", "blocks-between-calls", "reorg", "reorg-between-calls", "confirmed-before-start", "registered-after-the-fact", "never-broadcast", "confirm-late-between-calls"} {
+		for k := 0; k < r.N(3, 40); k++ {
+			cases = append(cases, c20Case{backend: "lnd", pattern: p, seed: r.Seed*7723 + int64(i) + 1})
+			i++
 		}
 	}
 	parallelDo(len(cases), 16, func(i int) { runC20(r, cases[i]) })
